@@ -110,6 +110,7 @@ def rules(ctx):
     ctx.rule('R02.13', "the receiving model is changed only by += / -= of penalty terms, the record helpers, nested "
                        "constraint methods and ancilla takes - never by update / item assignment / other operators", floor=8)
     ctx.rule('R02.14', "the constraint record is not shared between a model and its copies", floor=2)
+    ctx.rule('R02.16', "the weight enters the penalty only linearly (no floor division / modulo / comparison / coercion)", floor=4)
     ctx.rule('R02.15', "a relational method returns early only for lam == 0 or after a special-case penalty was merged", floor=6)
     ctx.rule('R02.12', "slack registers are sized from -X only where X <= 0 is forced, and the unary-slack "
                        "shortcut (X - sum of slack bits)^2 only where min X >= 0 is forced", floor=3)
@@ -211,6 +212,8 @@ def rules(ctx):
     record_not_shared(ctx, 'R02.14')
     for rel, fn in meths.items():
         early_exits(ctx, 'R02.15', fn)
+    from .C16 import weight_linearity
+    weight_linearity(ctx, 'R02.16')
 
 
 # =====================================================================
